@@ -203,11 +203,68 @@ def scan_sites():
     return sites
 
 
+# Python-level prefix tests on stored labels (str.startswith).  Modules that handle stored labels are
+# scanned for EVERY `.startswith(` call; each must be a recognised directory selection (with the
+# statement that guarantees the trailing separator of the directory argument) or on the benign list.
+PY_MODULES = ["workflow.py", "scheduler.py", "clean.py", "watcher.py", "trellis.py", "file.py", "finalize.py",
+              "step.py", "builder.py", "pending.py", "startup.py"]
+# (module, function, call text) -> text that must occur in the function before the call (None = the
+# directory argument comes from a list of static-tree labels, which end in a separator by construction)
+PY_PREFIX_SITES = {
+    ("workflow.py", "Workflow._is_justified_without_node", "path.startswith(label)"): None,
+    ("workflow.py", "Workflow._is_justified_without_node", "label.startswith(path)"):
+        "if not path.endswith(os.sep):\n    return False",
+    ("workflow.py", "Workflow.relevant_paths_under", "path.startswith(directory)"):
+        "if not directory.endswith(os.sep):\n    directory += os.sep",
+}
+PY_BENIGN = [
+    r"path\.startswith\(STEPUP_DIR \+ os\.sep\)",   # the .stepup/ directory itself, with separator
+    r"\.startswith\(\('?\"?[-+*<._$\[]",             # option / marker characters
+    r"\.startswith\('[^/']*'\)", r'\.startswith\("[^/"]*"\)',   # literal without a separator
+]
+
+
+def scan_py_prefix_sites():
+    sites, seen = [], set()
+    for name in PY_MODULES:
+        path = REPO / CORE / name
+        if not path.exists():
+            continue
+        tree = parse_module(f"{CORE}/{name}")
+        fns = list(functions_with_parents(tree))
+        for node in ast.walk(tree):
+            if not (isinstance(node, ast.Call) and isinstance(node.func, ast.Attribute)
+                    and node.func.attr in ("startswith", "is_relative_to", "removeprefix")):
+                continue
+            txt = ast.unparse(node)
+            owner = [q for q, f2 in fns if any(n2 is node for n2 in ast.walk(f2))]
+            owner = max(owner, key=len) if owner else "module"
+            key = (name, owner, txt)
+            if key in PY_PREFIX_SITES:
+                guard = PY_PREFIX_SITES[key]
+                if guard is not None:
+                    fn = dict(fns)[owner]
+                    before = "\n".join(ast.unparse(st) for st in ast.walk(fn)
+                                       if isinstance(st, ast.If) and st.lineno < node.lineno)
+                    if guard not in before:
+                        raise TranslatorError(f"{CORE}/{name}:{owner}: `{txt}` without the separator guard `{guard}`")
+                seen.add(key)
+                sites.append((f"{name}:{owner.split('.')[-1]}[{txt}]", "IPyPrefix"))
+                continue
+            if any(re.search(b, txt) for b in PY_BENIGN):
+                continue
+            raise TranslatorError(f"{CORE}/{name}:{node.lineno} ({owner}): unrecognised prefix test on a path: {txt}")
+    missing = sorted(set(PY_PREFIX_SITES) - seen)
+    if missing:
+        raise TranslatorError(f"expected Python prefix sites not found: {missing}")
+    return sites
+
+
 def generate():
     chain, esc, suffix = translate_prefix_clause()
     guard, cut, last = translate_dir_range_upper()
     cs = measure_like_case_sensitivity()
-    sites = scan_sites()
+    sites = scan_sites() + scan_py_prefix_sites()
     lines = [
         "(* GENERATED by translator/gen_prefix.py from /repo -- do not edit *)",
         "From Coq Require Import List NArith.",
@@ -225,7 +282,7 @@ def generate():
         f"Definition range_guard : str := {coq_str(guard)}.",
         f"Definition range_cut : nat := {cut}.",
         f"Definition range_last : str := {coq_str(last)}.",
-        "Inductive idiom := ILike | ISubstr | IRange.",
+        "Inductive idiom := ILike | ISubstr | IRange | IPyPrefix.",
         "Definition sites : list (str * idiom) := [",
         ";\n".join(f"  ({coq_str(n)}, {i}) (* {n} *)" for n, i in sites),
         "].",
